@@ -172,6 +172,106 @@ def h_projection(ctx, name):
     ctx.tag("skip" if skip1 else "valid")
 
 
+def _scaled_state(st, c):
+    """copy of an EP state in another time unit: every second natural parameter / c"""
+    import copy
+    st2 = copy.copy(st)
+    f2 = copy.copy(st.factors)
+    for nm in ("node", "edge", "block", "scale"):
+        setattr(f2, nm, getattr(st.factors, nm).copy())
+    for arr in (f2.node, f2.edge, f2.block):
+        for idx in np.ndindex(arr.shape[:-1]):
+            arr[idx + (1,)] = arr[idx + (1,)] / c
+    st2.factors = f2
+    st2.posterior = st.posterior.copy()
+    for i in range(st.n):
+        st2.posterior[i, 1] = st2.posterior[i, 1] / c
+    return st2
+
+
+def _call_prior(var, free, post, factors, max_shape, em_maxitt, reltol):
+    """propagate_prior as ExpectationPropagation.iterate calls it: parameters this harness does
+    not know about take iterate's own defaults."""
+    import inspect
+    f = var.ExpectationPropagation.propagate_prior
+    names = list(inspect.signature(f).parameters)
+    given = dict(free=free, posterior=post, factors=factors, max_shape=max_shape,
+                 em_maxitt=em_maxitt, em_reltol=reltol)
+    dflt = {k: v.default for k, v in
+            inspect.signature(var.ExpectationPropagation.iterate).parameters.items()}
+    args = [given[n] if n in given else dflt[n] for n in names]
+    return f(*args)
+
+
+def h_prior_step(ctx, config, em_maxitt):
+    """propagate_prior (EM fit of the exponential root prior, <= em_maxitt + 1 iterations) from an
+    arbitrary valid EP state and from the same state in another time unit."""
+    from symx.dom import sym, Q
+    from checks import ep_cases
+    c = sym("c", "pos")
+    with ep_h.patched_ep() as (var_, approx, npx):
+        var, st, max_shape, min_step = ep_cases._common(ctx, config, "I", tiny=False)
+        is_child = {cc for p, cc in st.edges}
+        free = np.array([(not st.fixed[i]) and i not in is_child for i in range(st.n)])
+        for i in range(st.n):
+            if not st.fixed[i]:
+                ctx.assume(st.posterior[i, 0] + 1 <= max_shape)
+        for i in np.flatnonzero(free):
+            cav = st.posterior[i] - st.factors.node[i, 0] * st.factors.scale[i]
+            ctx.assume(cav[0] > -1)
+            ctx.assume(cav[1] > 0)
+        st2 = _scaled_state(st, c)
+        reltol = sym("reltol", "pos")
+        try:
+            _call_prior(var, free, st.posterior, st.factors, max_shape, em_maxitt, reltol)
+            _call_prior(var, free.copy(), st2.posterior, st2.factors, max_shape, em_maxitt, reltol)
+        except Exception as e:
+            ctx.fail("no-exception", detail={"exception": repr(e)[:300]})
+            return
+    for i in range(st.n):
+        if st.fixed[i]:
+            continue
+        ctx.prove(f"prior_step:node[{i}]:shape_same", Q.of(st2.posterior[i, 0]) == Q.of(st.posterior[i, 0]))
+        ctx.prove(f"prior_step:node[{i}]:rate_divided_by_c",
+                  Q.of(st2.posterior[i, 1]) * c == Q.of(st.posterior[i, 1]))
+        ctx.prove(f"prior_step:node[{i}]:scale_same", Q.of(st2.factors.scale[i]) == Q.of(st.factors.scale[i]))
+        for k in range(2):
+            ctx.prove(f"prior_step:node[{i}]:prior_message[{k}]",
+                      Q.of(st2.factors.node[i, 0, k]) * (c if k else 1) == Q.of(st.factors.node[i, 0, k]))
+    ctx.tag("prior-step")
+
+
+def h_damp(ctx):
+    from symx.dom import sym, Q
+    c = sym("c", "pos")
+    with ep_h.patched_ep() as (var, approx, npx):
+        x = npx.array([sym("x0"), sym("x1")])
+        y = npx.array([sym("y0"), sym("y1")])
+        s = sym("s", "pos")
+        ms = sym("max_shape")
+        ctx.assume(s < 1)
+        ctx.assume(ms > 1)
+        x2 = npx.array([x[0], x[1] / c])
+        y2 = npx.array([y[0], y[1] / c])
+        out = []
+        for f, a in ((var._damp, (x, y, s)), (var._damp, (x2, y2, s)),
+                     (var._rescale, (x, ms)), (var._rescale, (x2, ms))):
+            try:
+                out.append(("ok", f(*a)))
+            except AssertionError:
+                out.append(("assert", None))
+            except Exception as e:
+                ctx.fail("no-exception", detail={"exception": repr(e)[:300]})
+                return
+    ctx.prove("damp:same_outcome", out[0][0] == out[1][0])
+    ctx.prove("rescale:same_outcome", out[2][0] == out[3][0])
+    if out[0][0] == out[1][0] == "ok":
+        ctx.prove("damp:same_factor", Q.of(out[0][1]) == Q.of(out[1][1]))
+    if out[2][0] == out[3][0] == "ok":
+        ctx.prove("rescale:same_factor", Q.of(out[2][1]) == Q.of(out[3][1]))
+    ctx.tag("damp")
+
+
 def h_constrain(ctx, skel, iters):
     from symx import load
     from symx.dom import sym, Q
@@ -326,6 +426,11 @@ def cases(tier):
         cs.append(Case(f"moments:{nm}", h_moments, dict(name=nm)))
     for nm in PROJ:
         cs.append(Case(f"projection:{nm}", h_projection, dict(name=nm), weight=5))
+    cs.append(Case("damp_rescale", h_damp, {}))
+    for cfg, k in (("chain", 0), ("chain", 1), ("blocks", 1)) + \
+            ((("chain", 2), ("hist", 1)) if tier == "thorough" else ()):
+        cs.append(Case(f"prior_step:{cfg}:em{k}", h_prior_step, dict(config=cfg, em_maxitt=k),
+                       weight=30))
     for sk, it in (("cat3", 0), ("cat3", 1), ("internal_sample", 1), ("two_tree", 0)) + \
             ((("cat3", 2), ("bal4", 1)) if tier == "thorough" else ()):
         cs.append(Case(f"constrain:{sk}:it{it}", h_constrain, dict(skel=sk, iters=it), weight=20))
@@ -361,6 +466,7 @@ def run(tier, seed, t0):
         "InsideOutsideMethod.run / MaximizationMethod.run in both probability spaces: posterior means "
         "* c, variances * c^2.",
         functions=["tsdate.approx.*_moments (14)", "tsdate.approx.*_projection (14)",
+                   "tsdate.variational.ExpectationPropagation.propagate_prior", "tsdate.variational._damp/_rescale",
                    "tsdate.util._constrain_ages", "tsdate.rescaling.mutational_timescale/"
                    "mutational_area/_fixed_changepoints/piecewise_scale_point_estimate",
                    "tsdate.demography.PopulationSizeHistory", "tsdate.core.InsideOutsideMethod.run/"
@@ -378,7 +484,8 @@ def run(tier, seed, t0):
                       "(propagate_likelihood / propagate_prior) is linear in the natural parameters "
                       "and is covered only through the replays"],
         validated=npx.validate(),
-        expect_tags=["valid", "skip", "constrain", "timescale", "popsize", "discrete-inside_outside",
+        expect_tags=["valid", "skip", "constrain", "timescale", "popsize", "prior-step", "damp",
+                     "discrete-inside_outside",
                      "discrete-maximization"],
     )
 
@@ -389,14 +496,14 @@ def replay(payload):
     import msprime
     import tsdate
     m = common.model_floats(payload["model"])
-    cs = [float(m.get("c", 3.7)), 3.7, 1e-3, 123456.789]
+    cs = [float(m.get("c", 3.7)), 3.7, 1e-3, 123456.789, 1.3e7]
     bad = []
     ts0 = msprime.sim_ancestry(4, sequence_length=2e4, recombination_rate=1e-6, population_size=100,
                                random_seed=5)
     ts0 = msprime.sim_mutations(ts0, rate=1e-5, random_seed=6)
     mu = 1e-5
     for c in cs:
-        if not (1e-6 < c < 1e9):
+        if not (1e-6 < c < 1e10):
             continue
         for method in ("variational_gamma", "inside_outside", "maximization"):
             kw1, kw2 = {}, {}
@@ -421,7 +528,7 @@ def replay(payload):
                 bad.append((method, c, "mutations_time"))
             for u in range(a.num_nodes):
                 ma, mb = a.node(u).metadata, b.node(u).metadata
-                if "mn" in ma:
+                if isinstance(ma, dict) and isinstance(mb, dict) and "mn" in ma:
                     if not (abs(mb["mn"] - ma["mn"] * c) <= 1e-6 * abs(ma["mn"] * c)
                             and abs(mb["vr"] - ma["vr"] * c * c) <= 1e-5 * abs(ma["vr"] * c * c)):
                         bad.append((method, c, "metadata", u, ma, mb))
